@@ -36,6 +36,7 @@ type probe struct {
 	speed    kit.Speed
 	seed     uint64
 	errEvery int // every k-th execution returns an error (0 = never)
+	slowAt   int // this execution takes long (0 = none)
 }
 
 var errProbe = errors.New("probe failure")
@@ -50,6 +51,10 @@ func (p *probe) run() (int, error) {
 	}
 	k := int(p.execs.Add(1))
 	p.speed.Pace(k, 4, p.seed+uint64(k)*977)
+	if k == p.slowAt {
+		kit.Yields(150)
+		kit.Speed(kit.SlowFirst).Pace(0, 1, 0)
+	}
 	res := k*10 + 1
 	p.gauge.Add(-1)
 	p.mu.Lock()
@@ -202,6 +207,9 @@ func c15Counting(r *kit.Run, idx int64, rng *rand.Rand, kind wrapKind) {
 	if kind != wLock && rng.IntN(3) == 0 {
 		p.errEvery = 1 + rng.IntN(2)
 	}
+	if kind == wLimit && rng.IntN(2) == 0 {
+		p.slowAt = limitN // callers arrive while the final execution is still running
+	}
 	ws := wrappers(kind, limitN, p)
 	w := ws[rng.IntN(len(ws))]
 	callers := 1 + rng.IntN(32)
@@ -304,6 +312,28 @@ func c15Counting(r *kit.Run, idx int64, rng *rand.Rand, kind wrapKind) {
 		if execs != want {
 			viol("execution-count", fmt.Sprintf("Limit(%d) executed %d times for %d calls", limitN, execs, calls))
 			return
+		}
+		if calls > limitN && w.hasValue {
+			// every execution's result is returned to exactly one caller (the
+			// one that ran it), except the last one, which every other call
+			// observes: a caller never returns an earlier (or no) result
+			// instead of waiting for the execution that reaches the limit
+			seen := map[int]int{}
+			for c := range recs {
+				for _, rc := range recs[c] {
+					seen[rc.val]++
+				}
+			}
+			for k := 1; k < limitN; k++ {
+				if seen[k*10+1] != 1 {
+					viol("stale-result", fmt.Sprintf("the result of execution %d was returned to %d callers (exactly its executor may see it); results seen: %v", k, seen[k*10+1], seen))
+					return
+				}
+			}
+			if seen[limitN*10+1] != calls-(limitN-1) {
+				viol("stale-result", fmt.Sprintf("%d of %d calls observed the last result %d; results seen: %v", seen[limitN*10+1], calls-(limitN-1), limitN*10+1, seen))
+				return
+			}
 		}
 		if calls > limitN && (w.hasValue || w.hasErr) {
 			lastEnd := p.endOf(limitN)
